@@ -23,6 +23,7 @@ import (
 // their data; lock and removal status did not change anywhere.
 func VerifC19Evacuate() {
 	n := 2 + vrt.Choice("shards", 2)
+	verifOrderOnce = vrt.Param("HOMES") == 0
 	w := vwNew(n, 10)
 	regular := w.vwObj(1, object.TypeRegular, -1)
 	locked := w.vwObj(2, object.TypeRegular, -1)
@@ -37,7 +38,10 @@ func VerifC19Evacuate() {
 		vrt.Assume(err == nil)
 	}
 	home := func(name string) int { return vrt.Choice(name, n) }
-	hr, hl, hd := home("shardOfRegular"), home("shardOfLocked"), home("shardOfRemoved")
+	hr, hl, hd := 0, home("shardOfLocked"), 0
+	if vrt.Param("HOMES") != 0 { // thorough: every object on every shard; quick: regular and removed object on the first evacuated shard
+		hr, hd = home("shardOfRegular"), home("shardOfRemoved")
+	}
 	put(hr, regular)
 	put(hl, locked)
 	put(hd, removed)
